@@ -85,7 +85,11 @@ def native_accuracy(n, kind, scale, root, dtname, cfgname, seed, eps_ratio=None)
         return None
     want, cond = _oracle(A64, root, eps)
     try:
-        X = M.matrix_inverse_root(A64.to(dt), Fraction(root), root_inv_config=cfg, epsilon=eps)
+        Ain = A64.to(dt)
+        if seed % 2 == 1:
+            # the same symmetric matrix in column-major memory layout (a transposed view, as torch.linalg.* outputs are): strides must not matter
+            Ain = (A64.T.contiguous().to(dt)).T
+        X = M.matrix_inverse_root(Ain, Fraction(root), root_inv_config=cfg, epsilon=eps)
     except ArithmeticError:
         return None  # the higher-order solver may raise rather than return an inaccurate result
     except Exception as e:
